@@ -193,6 +193,8 @@ class Shared:
             ctx.check("failure-recorded-for-own-node-that-really-raised", bool(th.exc is not None), props=["C06"])
             ctx.check("failure:node-not-completed", z3.Not(member(w.completed, th.me)), props=["C06"])
             ctx.assume(G.L_card_remove(w.active, th.me))
+            ctx.assume(G.L_card_insert(w.failed, th.me))    # me is started and not completed, and (G2 + token exclusivity) not yet failed
+            ctx.check("failure:node-not-yet-counted-as-failed", z3.Not(member(w.failed, th.me)), props=["C06", "C10"])
             th.step("fail", {"error_count": value.t, "failed": insert(w.failed, th.me), "active": G.remove(w.active, th.me)})
             th.active = False
             th.establish("error_count-store", ("G2",))
@@ -268,12 +270,14 @@ def G5(w, st):
     """resource invariant of failure_lock (plus the always-part linking stop and error_count)"""
     fs = [
         w.error_count >= 0,
+        w.error_count == G.card(w.failed),            # one increment per failed node (C10: 'at most k + max_workers calls fail')
         w.first_set == (w.error_count >= 1),
         z3.Implies(w.first_set, member(w.failed, w.first_node)),
     ]
     if not st.k_none:
         fs.append(z3.Implies(z3.Not(w.stopF), w.error_count <= st.k))
         fs.append(z3.Implies(w.stopF, z3.And(w.stop, w.error_count + G.card(w.active) <= st.k + st.W)))
+        fs.append(z3.Implies(w.stopF, w.error_count >= st.k + 1))      # stop is only ever set by a failure that exceeded the budget
     else:
         fs.append(z3.Not(w.stopF))
     return fs
